@@ -39,6 +39,14 @@ def siftdown (heap : Array β) (startpos pos : Nat) : Array β :=
   | none => heap
   | some newitem => siftdownLoop lt startpos newitem pos heap pos
 
+/-- "Set childpos to index of smaller child": `rightpos = childpos + 1;
+    if rightpos < endpos and not heap[childpos] < heap[rightpos]: childpos = rightpos`. -/
+def smallerChild (heap : Array β) (childpos : Nat) : Nat :=
+  let rightpos := childpos + 1
+  match heap[childpos]?, heap[rightpos]? with
+  | some c, some r => if rightpos < heap.size && !(lt c r) then rightpos else childpos
+  | _, _ => childpos
+
 /-- the loop of `_siftup`: "bubble up the smaller child until hitting a leaf"; returns the heap and the final
     `pos` (the empty leaf). -/
 def siftupLoop : Nat → Array β → Nat → Array β × Nat
@@ -47,11 +55,7 @@ def siftupLoop : Nat → Array β → Nat → Array β × Nat
     let endpos := heap.size
     let childpos := 2 * pos + 1
     if childpos < endpos then
-      let rightpos := childpos + 1
-      let childpos :=
-        match heap[childpos]?, heap[rightpos]? with
-        | some c, some r => if rightpos < endpos && !(lt c r) then rightpos else childpos
-        | _, _ => childpos
+      let childpos := smallerChild lt heap childpos
       match heap[childpos]? with
       | none => (heap, pos)                              -- unreachable
       | some c => siftupLoop fuel (heap.setIfInBounds pos c) childpos
@@ -107,29 +111,31 @@ abbrev PR (α : Type) := α × Rect α
 /-- `PrioritizedRectangle(-r.area, r)`. -/
 @[inline] def mkPR (r : Rect α) : PR α := (-r.area, r)
 
-/-- Phase 1, `while len(q) > 0: r = q.pop(); …`.  The deque is a list whose head is the right end
-    (`pop` / `extend` both work there); `acc` is the list `heap` being appended to. -/
-def phase1 (ratio : α) : Nat → List (Rect α) → Array (PR α) → Except Err (Array (PR α))
+/-- The aspect-ratio worklist `while len(q) > 0: r = q.pop…(); if r.aspect_ratio > aspect_ratio: q.extend(r.split())
+    else: <emit r>`, which occurs twice in `split_rectangles`.  The two occurrences differ in the queue discipline
+    (`enq q r1 r2` = the queue after `q.extend((r1, r2))`, the head of the list being the element taken next) and in
+    what is done with a compliant rectangle (`emit`). -/
+def worklist (enq : List (Rect α) → Rect α → Rect α → List (Rect α))
+    (emit : Array (PR α) → Rect α → Array (PR α)) (ratio : α) :
+    Nat → List (Rect α) → Array (PR α) → Except Err (Array (PR α))
   | 0, _, _ => .error .fuel
   | _ + 1, [], acc => .ok acc
   | fuel + 1, r :: q, acc =>
     if ratio < r.aspectRatio then
       match r.split with
       | none => .error .assert
-      | some (r1, r2) => phase1 ratio fuel (r2 :: r1 :: q) acc      -- q.extend((r1, r2))
-    else phase1 ratio fuel q (acc.push (mkPR r))
+      | some (r1, r2) => worklist enq emit ratio fuel (enq q r1 r2) acc
+    else worklist enq emit ratio fuel q (emit acc r)
 
-/-- (repair) the aspect-ratio worklist of phase 2: `r = q.popleft()`; too elongated pieces are split again
-    (`q.extend`), the others are pushed on the heap. -/
-def resplit (ratio : α) : Nat → List (Rect α) → Array (PR α) → Except Err (Array (PR α))
-  | 0, _, _ => .error .fuel
-  | _ + 1, [], heap => .ok heap
-  | fuel + 1, r :: q, heap =>
-    if ratio < r.aspectRatio then
-      match r.split with
-      | none => .error .assert
-      | some (r1, r2) => resplit ratio fuel (q ++ [r1, r2]) heap
-    else resplit ratio fuel q (Heapq.heappush prLt heap (mkPR r))
+/-- Phase 1: `r = q.pop()` takes from the right end, `q.extend` appends there, so the deque is a stack whose top is
+    the head of the list (`r2` is taken next); compliant rectangles are appended to the list `heap`. -/
+def phase1 (ratio : α) : Nat → List (Rect α) → Array (PR α) → Except Err (Array (PR α)) :=
+  worklist (fun q r1 r2 => r2 :: r1 :: q) (fun acc r => acc.push (mkPR r)) ratio
+
+/-- (repair) the worklist of phase 2: `r = q.popleft()` takes from the left end, `q.extend` appends at the right
+    end (FIFO); compliant rectangles are pushed on the heap. -/
+def resplit (ratio : α) : Nat → List (Rect α) → Array (PR α) → Except Err (Array (PR α)) :=
+  worklist (fun q r1 r2 => q ++ [r1, r2]) (fun heap r => Heapq.heappush prLt heap (mkPR r)) ratio
 
 /-- Phase 2, `while len(heap) < n`.  The same `fuel` is handed to every inner worklist. -/
 def phase2 (ratio : α) (n : Nat) (fuel : Nat) : Nat → Array (PR α) → Except Err (Array (PR α))
